@@ -47,8 +47,21 @@ fn writer_case(ctx: &Ctx, stream: &str, idx: u64, cfg: &WCfg, entries: &[Entry],
             return None;
         }
     };
-    // determinism across repeated runs
-    if let Ok(again) = write_with(cfg, entries, &Split::Full, 1) {
+    // determinism across repeated runs: another writer with a different level / codec works on
+    // this thread in between (the bytes must not depend on what was written before)
+    {
+        let mut decoy = cfg.clone();
+        decoy.level = match cfg.codec {
+            grenad::CompressionType::Zlib => (cfg.level + 5) % 10,
+            grenad::CompressionType::Zstd => (cfg.level + 11) % 23,
+            _ => cfg.level.wrapping_add(1),
+        };
+        let some: Vec<Entry> = entries.iter().take(40).cloned().collect();
+        let _ = write_with(&decoy, &some, &Split::Full, 0);
+    }
+    // ... and the repeated run happens on a brand-new thread (no per-thread state carried over)
+    let again = std::thread::scope(|sc| sc.spawn(|| write_with(cfg, entries, &Split::Full, 1)).join().unwrap_or_else(|_| Err("thread panicked".into())));
+    if let Ok(again) = again {
         ctx.count("repeat_runs_compared", 1);
         if again.0 != reference {
             ctx.violation("bytes-differ-between-identical-runs", stream, idx, detail(&Split::Full, "two identical runs emitted different byte streams", format!("lengths {} vs {}", reference.len(), again.0.len())));
